@@ -1029,11 +1029,69 @@ def r3(ctx: Ctx) -> None:
             if v is not None and eval3(v, _not_member) is False:
                 continue
             okr = False
-    ctx.ob("C20.R3", ip, "an error is permanent only by membership in PERMANENT_S3_ERROR_CODES", rets[-1] if rets else None, okr,
-           "any broader classification (e.g. 'every 4xx') makes transient faults such as RequestTimeout/400, OperationAborted/409 or "
-           "429 throttling surface after one attempt instead of being masked within the retry budget")
+    scen = _classifier_scenarios(ctx, ip)
+    if scen is not None:
+        # decided by scenario (nothing is run): the classifier is walked with scripted error responses; what the structural
+        # reading above could not follow (a second signal next to the code table, a helper) is judged by its answers
+        wrong = [(c_, st_, want, got) for c_, st_, want, got in scen if want is not None and got != want]
+        ctx.ob("C20.R3", ip, "an error is permanent only by membership in PERMANENT_S3_ERROR_CODES", rets[-1] if rets else None, not wrong,
+               f"scenario walk over {len(scen)} scripted error responses (code, HTTP status): throttling, timeouts, aborted operations, "
+               "5xx and 404 stay retryable, credential / permission / bucket errors are permanent" + (
+                   f" - but code {wrong[0][0]!r} with status {wrong[0][1]} is classified {'permanent' if wrong[0][3] else 'retryable'}: "
+                   + ("a transient fault surfaces after one attempt instead of being masked within the retry budget (#39/#50)" if wrong[0][3]
+                      else "a permanent error burns the whole retry budget") if wrong else ""))
+    else:
+        ctx.ob("C20.R3", ip, "an error is permanent only by membership in PERMANENT_S3_ERROR_CODES", rets[-1] if rets else None, okr,
+               "any broader classification (e.g. 'every 4xx') makes transient faults such as RequestTimeout/400, OperationAborted/409 or "
+               "429 throttling surface after one attempt instead of being masked within the retry budget")
     ctx.ob("C20.R3", ip, "404 / NoSuchKey are not permanent (a just-written object may read as missing)", None,
            bool(vals) and "404" not in vals and "NoSuchKey" not in vals and "AccessDenied" in vals, f"{len(vals)} permanent codes", nontrivial=False)
+
+
+CLASSIFIER_SCENARIOS: List[Tuple[str, Optional[int], Optional[bool]]] = [
+    # (error code, HTTP status or None when the response carries none, permanent? - None = either answer is acceptable)
+    ("RequestTimeout", 400, False), ("RequestTimeout", None, False), ("OperationAborted", 409, False), ("SlowDown", 503, False),
+    ("TooManyRequests", 429, False), ("Throttling", 400, False), ("InternalError", 500, False), ("ServiceUnavailable", 503, False),
+    ("NoSuchKey", 404, False), ("404", 404, False), ("404", None, False), ("", None, False), ("", 500, False), ("BadDigest", 400, False),
+    ("PreconditionFailed", 412, False), ("ConditionalRequestConflict", 409, False), ("RequestTimeTooSkewed", 403, None),
+    ("AccessDenied", 403, True), ("AccessDenied", None, True), ("InvalidAccessKeyId", 403, True), ("SignatureDoesNotMatch", 403, True),
+    ("NoSuchBucket", 404, True), ("NoSuchBucket", None, True), ("403", 403, True), ("401", None, True), ("Forbidden", 403, None),
+    ("Unauthorized", 401, None)]
+
+
+def _classifier_scenarios(ctx: Ctx, ip: FunctionInfo) -> Optional[List[Tuple[str, Optional[int], Optional[bool], object]]]:
+    """[(code, status, expected, answer)] of is_permanent_s3_error under scripted botocore-style responses, or None when the
+    evaluator cannot follow the function (the structural rule decides then)."""
+    from .common import concrete_eval, explore, UNKNOWN
+    g = ctx.cfg(ip)
+    pn = next((p.name for p in ip.params if p.name not in ("self", "cls")), None)
+    if pn is None:
+        return None
+    rets = [n.id for n in g.nodes if n.kind == "return"]
+    out: List[Tuple[str, Optional[int], Optional[bool], object]] = []
+    for code, status, want in CLASSIFIER_SCENARIOS:
+        resp: Dict[str, object] = {"Error": {"Code": code, "Message": "scripted"}}
+        if status is not None:
+            resp["ResponseMetadata"] = {"HTTPStatusCode": status}
+        env: Dict[str, object] = {pn + ".response": resp, pn + ".*": True}
+        vals = set()
+        try:
+            for nid, store, _asm in explore(ctx, ip, [g.entry], env, stop=rets):
+                n_ = g.nodes[nid]
+                if n_.kind != "return" or any(isinstance(k, tuple) and k[0] == "undecided" for k in store):
+                    return None
+                sc = dict(env)
+                sc.update({k: v for k, v in store.items() if isinstance(k, (str, tuple))})
+                v_ = concrete_eval(ctx, ip, n_.ast.value, sc, nid) if n_.ast is not None and n_.ast.value is not None else None  # type: ignore[union-attr]
+                if v_ is UNKNOWN:
+                    return None
+                vals.add(bool(v_))
+        except Exception:
+            return None
+        if len(vals) != 1:
+            return None
+        out.append((code, status, want, next(iter(vals))))
+    return out
 
 
 def r14_retried_ops_restartable(ctx: Ctx, rid: str = "C20.R14") -> None:
@@ -1071,15 +1129,45 @@ def r14_retried_ops_restartable(ctx: Ctx, rid: str = "C20.R14") -> None:
                             nonlocals |= set(x.names)
                     local = (own | assigned) - nonlocals
                     bad = []
+                    # a captured container EMPTIED at the top of the operation, before anything else touches it (`del acc[:]`,
+                    # `acc.clear()`, `acc[:] = []`), starts every attempt from scratch all the same ...
+                    reset: Set[str] = set()
+                    touched: Set[str] = set()
+                    for st in (body.body if isinstance(getattr(body, "body", None), list) else []):
+                        nm_ = None
+                        if isinstance(st, ast.Delete) and len(st.targets) == 1 and isinstance(st.targets[0], ast.Subscript) \
+                                and isinstance(st.targets[0].value, ast.Name) and isinstance(st.targets[0].slice, ast.Slice) \
+                                and st.targets[0].slice.lower is None and st.targets[0].slice.upper is None and st.targets[0].slice.step is None:
+                            nm_ = st.targets[0].value.id
+                        elif isinstance(st, ast.Expr) and isinstance(st.value, ast.Call) and isinstance(st.value.func, ast.Attribute) \
+                                and st.value.func.attr == "clear" and isinstance(st.value.func.value, ast.Name) and not st.value.args:
+                            nm_ = st.value.func.value.id
+                        elif isinstance(st, ast.Assign) and len(st.targets) == 1 and isinstance(st.targets[0], ast.Subscript) \
+                                and isinstance(st.targets[0].value, ast.Name) and isinstance(st.targets[0].slice, ast.Slice) \
+                                and st.targets[0].slice.lower is None and st.targets[0].slice.upper is None \
+                                and isinstance(st.value, (ast.List, ast.Tuple)) and not st.value.elts:
+                            nm_ = st.targets[0].value.id
+                        if nm_ is not None and nm_ not in touched:
+                            reset.add(nm_)
+                        touched |= {y.id for y in ast.walk(st) if isinstance(y, ast.Name)}
+                    # ... and a captured COUNTER that is only ever incremented (never read by the operation) cannot shape its result
+                    reads: Dict[str, int] = {}
+                    for x in ast.walk(body):
+                        if isinstance(x, ast.Name) and isinstance(x.ctx, ast.Load):
+                            reads[x.id] = reads.get(x.id, 0) + 1
                     for x in ast.walk(body):
                         if isinstance(x, ast.Call) and isinstance(x.func, ast.Attribute) and x.func.attr in MUTATORS \
-                                and isinstance(x.func.value, ast.Name) and x.func.value.id not in local:
+                                and isinstance(x.func.value, ast.Name) and x.func.value.id not in local and x.func.value.id not in reset:
                             bad.append(f"{x.func.value.id}.{x.func.attr}(...) at line {x.lineno}")
                         if isinstance(x, (ast.Assign, ast.AugAssign)):
                             for t in (x.targets if isinstance(x, ast.Assign) else [x.target]):
-                                if isinstance(t, ast.Subscript) and isinstance(t.value, ast.Name) and t.value.id not in local:
+                                if isinstance(t, ast.Subscript) and isinstance(t.value, ast.Name) and t.value.id not in local \
+                                        and t.value.id not in reset:
                                     bad.append(f"{t.value.id}[...] = ... at line {x.lineno}")
                                 if isinstance(t, ast.Name) and t.id in nonlocals:
+                                    if isinstance(x, ast.AugAssign) and isinstance(x.op, ast.Add) and not reads.get(t.id) \
+                                            and not (names_in(x.value) & (nonlocals | {t.id})):
+                                        continue  # write-only bookkeeping (pages / requests seen so far)
                                     bad.append(f"nonlocal {t.id} rebound at line {x.lineno}")
                     ctx.ob(rid, fv if not isinstance(fv.node, ast.Lambda) else top, "the retried operation mutates nothing it captured", None, not bad,
                            "every attempt builds its own result" if not bad else
